@@ -47,9 +47,10 @@ pub fn point(name: &str, path: &Path) {
         }
     }
     let seq = SEQ.fetch_add(1, Ordering::SeqCst);
-    let base = Path::new(&dir).join(format!("{}.{seq}.{name}", std::process::id()));
-    let _ = std::fs::write(base.with_extension("at"), name);
-    let go = base.with_extension("go");
+    // (the point name contains dots: do not build the names with `with_extension`)
+    let stem = format!("{}.{seq}.{name}", std::process::id());
+    let _ = std::fs::write(Path::new(&dir).join(format!("{stem}.at")), name);
+    let go = Path::new(&dir).join(format!("{stem}.go"));
     let start = std::time::Instant::now();
     while !go.exists() && start.elapsed() < std::time::Duration::from_secs(60) {
         std::thread::sleep(std::time::Duration::from_millis(2));
